@@ -1,11 +1,13 @@
 package gqlgen
 
 import (
+	"bytes"
 	"context"
 	"encoding/json"
 	"errors"
 	"fmt"
 	"io/ioutil"
+	"net/http/httptest"
 	"reflect"
 	"strings"
 	"sync"
@@ -139,7 +141,10 @@ func classify(err error, qname string) Observed {
 		}
 	default:
 		var inner graphql.SanitizedError
-		if errors.As(cause, &inner) {
+		if errors.Is(cause, context.Canceled) || errors.Is(cause, context.DeadlineExceeded) {
+			o.Class = "cancelwrap"
+			o.Text = ctext
+		} else if errors.As(cause, &inner) {
 			// not a SanitizedError itself, but one is somewhere in its chain
 			o.Class = "wrapsafe"
 			o.Text = ctext
@@ -577,4 +582,47 @@ func hasEmptySet(q *Query) bool {
 		}
 	}
 	return false
+}
+
+// ---- HTTP ----
+
+// HTTPResult is what one POST to graphql.HTTPHandlerWithExecutor answered.
+type HTTPResult struct {
+	Status   int         `json:"status"`
+	Body     string      `json:"body"`
+	Data     interface{} `json:"data"`
+	Errors   []string    `json:"errors"`
+	TimedOut bool        `json:"timed_out,omitempty"`
+}
+
+func HTTPPost(b *Built, text string, vars map[string]interface{}, sched graphql.WorkScheduler) HTTPResult {
+	done := make(chan HTTPResult, 1)
+	go func() {
+		var res HTTPResult
+		defer func() {
+			if e := recover(); e != nil {
+				res.Body = "panic: " + fmt.Sprint(e)
+				res.Status = -1
+			}
+			done <- res
+		}()
+		body, _ := json.Marshal(map[string]interface{}{"query": text, "variables": vars})
+		req := httptest.NewRequest("POST", "/graphql", bytes.NewReader(body))
+		rec := httptest.NewRecorder()
+		graphql.HTTPHandlerWithExecutor(b.Schema, graphql.NewExecutor(sched)).ServeHTTP(rec, req)
+		res.Status = rec.Code
+		res.Body = rec.Body.String()
+		var parsed struct {
+			Data   interface{} `json:"data"`
+			Errors []string    `json:"errors"`
+		}
+		json.Unmarshal(rec.Body.Bytes(), &parsed)
+		res.Data, res.Errors = parsed.Data, parsed.Errors
+	}()
+	select {
+	case r := <-done:
+		return r
+	case <-time.After(ExecDeadline):
+		return HTTPResult{TimedOut: true}
+	}
 }
